@@ -240,6 +240,8 @@ pub struct TowerState {
     pub up: bool,
     /// every reply is held back this long (a slow tower)
     pub delay_ms: u64,
+    /// the user's subscription has run out: appointments are refused with the subscription error until /register is served
+    pub needs_renewal: bool,
 }
 
 pub struct FakeTower {
@@ -304,6 +306,7 @@ impl FakeTower {
             start_block: 500,
             up: true,
             delay_ms: 0,
+            needs_renewal: false,
         }));
         let stop = Arc::new(AtomicBool::new(false));
         let in_flight = Arc::new(AtomicU64::new(0));
@@ -378,6 +381,10 @@ impl FakeTower {
         self.in_flight.load(Ordering::SeqCst)
     }
 
+    pub fn expire_subscription(&self) {
+        self.state.lock().unwrap().needs_renewal = true;
+    }
+
     pub fn set_delay(&self, ms: u64) {
         self.state.lock().unwrap().delay_ms = ms;
     }
@@ -418,8 +425,14 @@ fn serve(state: &Arc<Mutex<TowerState>>, s: &mut TcpStream, path: &str, body: &V
         Behaviour::Reject(c) => respond(s, 400, format!(r#"{{"error":"rejected by script","error_code":{c}}}"#).as_bytes()),
         Behaviour::Raw(status, bytes) => respond(s, *status, bytes),
         Behaviour::WrongShape(j) => respond(s, 200, j.as_bytes()),
+        _ if path == "/add_appointment" && state.lock().unwrap().needs_renewal => {
+            respond(s, 401, br#"{"error":"Your subscription expired at 10","error_code":7}"#)
+        }
         _ => {
             // the valid answer, possibly tampered with
+            if path == "/register" {
+                state.lock().unwrap().needs_renewal = false;
+            }
             let mut v = if path == "/register" {
                 let user_hex = body["user_id"].as_str().unwrap_or("");
                 let user = hex::decode(user_hex).ok().and_then(|b| UserId::from_slice(&b).ok());
